@@ -29,6 +29,7 @@ representation*/
 #include "reg_parser.h"
 #include "tokenizer.h"
 #include <ctype.h>
+#include <limits.h>
 #include <stdlib.h>
 #include <string.h>
 #include <sys/mman.h>
@@ -291,12 +292,16 @@ static int check_len_or_resize(assemblyline_t al, int buf_pos) {
     FAIL_IF_VAR(al->external, "exceeded memory buffer: al->buffer_len = %d\n",
                 al->buffer_len)
 #ifdef __linux__
-    // resize internal memory buffer
-    void *resize = mremap(al->buffer, al->buffer_len,
-                          al->buffer_len + MEM_BUFFER, MREMAP_MAYMOVE);
+    // resize internal memory buffer: by as many steps as the write position
+    // needs (asm_set_offset may have moved it beyond the current mapping)
+    long new_len = al->buffer_len;
+    while ((long)buf_pos + BUFFER_TOLERANCE > new_len)
+      new_len += MEM_BUFFER;
+    FAIL_IF_MSG(new_len > INT_MAX, "internal buffer cannot grow any further\n");
+    void *resize = mremap(al->buffer, al->buffer_len, new_len, MREMAP_MAYMOVE);
     // NOLINTNEXTLINE(performance-no-int-to-ptr)
     FAIL_SYS(resize == MAP_FAILED, "failed to resize buffer\n", EXIT_FAILURE)
-    al->buffer_len += MEM_BUFFER;
+    al->buffer_len = (int)new_len;
     al->buffer = (uint8_t *)resize;
 #else
     fprintf(stderr, "internal buffer too small. Not running on Linux, "
